@@ -133,7 +133,8 @@ class PartiesEngine(Engine):
                     continue
                 op['assoc'] = rng.randrange(len(schema['assocs']))
             elif f == 'delete_attr':
-                attrs = [n for n, t in sch.attrs(kind) if n not in sch.referential(kind) and n not in sch.identifying(kind)]
+                attrs = [n for n, t in sch.attrs(kind)
+                         if rng.random() < 0.3 or (n not in sch.referential(kind) and n not in sch.identifying(kind))]
                 if not attrs:
                     continue
                 op['name'] = rng.choice(attrs)
